@@ -92,7 +92,7 @@ def gen_direct(rng, name=None):
         m = {"KEYS": "Keys", "TYPE": "Type", "TTL": "TTL", "GET": "Get", "HGETALL": "HGetAll", "LLEN": "LLen", "SMEMBERS": "SMembers"}[name]
         return name, [k], "%s(%s)" % (m, K)
     if name in ("RENAME", "RENAMENX"):
-        n = g_key(rng)
+        n = g_key(rng) if rng.random() < 0.7 else k      # renaming a key onto itself is a legal request
         return name, [k, n], "Rename(%s,%s,nx=%s)" % (K, hx(n), b01(name == "RENAMENX"))
     if name in ("EXPIRE", "EXPIREAT"):
         lim = SEC_MAX if name == "EXPIRE" else UNIX_MAX
@@ -156,10 +156,12 @@ def gen_direct(rng, name=None):
         m = {"HDEL": "HDel", "SADD": "SAdd", "SREM": "SRem", "ZREM": "ZRem"}[name]
         return name, [k] + l, "%s(%s,%s)" % (m, K, hxs(l))
     if name in ("HGET", "ZSCORE"):
-        f = g_str(rng)
+        f = g_str(rng) if rng.random() < 0.85 else k
         return name, [k, f], "%s(%s,%s)" % ({"HGET": "HGet", "ZSCORE": "ZScore"}[name], K, hx(f))
     if name in ("HSET", "HSETNX"):
         f, v = g_str(rng), g_str(rng)
+        if rng.random() < 0.15: f = k
+        if rng.random() < 0.15: v = f
         return name, [k, f, v], "HSet(%s,%s,%s,nx=%s)" % (K, hx(f), hx(v), b01(name == "HSETNX"))
     if name == "LINDEX":
         i = g_int(rng)
@@ -284,6 +286,14 @@ SIGS = {
 NON_NUMERIC = [b"abc", b"", b"1x", b"--1", b"1 2", b"0x10", b"9223372036854775808", b"-9223372036854775809", b"99999999999999999999999", b"1.5", b"1e3"]
 NON_FLOAT = [b"abc", b"", b"1x", b"--1", b"1 2", b"nan", b"NaN", b"(", b"1.2.3", b"-"]
 
+def out_of_range(rng, lim):
+    """in-int64 values above lim: the boundary, powers of ten and two (products that wrap to positive as well as negative), random"""
+    vals = [lim + 1, lim + 2, 2 * lim, 2**63 - 1, 2**63 - 2, 2**62, 2**62 + 1]
+    vals += [10**e for e in range(10, 19) if 10**e > lim]
+    vals += [2**e for e in range(34, 63) if 2**e > lim][::3]
+    vals += [rng.randint(lim + 1, 2**63 - 1) for _ in range(12)]
+    return sorted(set(v for v in vals if lim < v <= 2**63 - 1))
+
 def base_args(rng, name):
     """a minimal valid argument vector following the signature"""
     pos, tail = SIGS[name]
@@ -336,19 +346,20 @@ def malformations(rng, name):
                 out.append(("set-expiry", [b"k", b"v", a.encode(), bad]))
             out.append(("set-expiry-missing", [b"k", b"v", a.encode()]))
             out.append(("set-expiry-null", [b"k", b"v", a.encode(), None]))
-        out.append(("set-expiry-range", [b"k", b"v", b"EX", str(SEC_MAX + 1).encode()]))
-        out.append(("set-expiry-range", [b"k", b"v", b"PX", str(MSEC_MAX + 1).encode()]))
-        out.append(("set-expiry-range", [b"k", b"v", b"EXAT", str(UNIX_MAX + 1).encode()]))
+        for w, lim in (("EX", SEC_MAX), ("PX", MSEC_MAX), ("EXAT", UNIX_MAX)):
+            for n in out_of_range(rng, lim):
+                out.append(("set-expiry-range", [b"k", b"v", w.encode(), str(n).encode()]))
         out.append(("set-repeat", [b"k", b"v", b"KEEPTTL", b"keepttl"]))
         out.append(("set-repeat", [b"k", b"v", b"GET", b"GET"]))
         out.append(("set-unknown", [b"k", b"v", b"BOGUS"]))
     if name == "SETEX":
-        for bad in (b"0", b"-1", str(SEC_MAX + 1).encode()):
+        for bad in [b"0", b"-1"] + [str(n).encode() for n in out_of_range(rng, SEC_MAX)]:
             out.append(("setex-range", [b"k", bad, b"v"]))
     if name in ("EXPIRE", "EXPIREAT"):
         lim = SEC_MAX if name == "EXPIRE" else UNIX_MAX
-        out.append(("expire-range", [b"k", str(lim + 1).encode()]))
-        out.append(("expire-range", [b"k", str(-lim - 1).encode()]))
+        for n in out_of_range(rng, lim):
+            out.append(("expire-range", [b"k", str(n).encode()]))
+            out.append(("expire-range", [b"k", str(-n).encode()]))
     if name in ("LPOP", "RPOP"):
         for tok in NON_NUMERIC:
             out.append(("nonnum-count", [b"k", tok]))
